@@ -3,4 +3,11 @@ import Physt.DriverND
 import Physt.Theorems.C01
 import Physt.Theorems.C03
 import Physt.Theorems.C04
+import Physt.Theorems.C05
+import Physt.Theorems.C06
+import Physt.Theorems.C10
+import Physt.Theorems.C11
+import Physt.Theorems.C13
+import Physt.Theorems.C14
+import Physt.Theorems.C18
 import Physt.Theorems.C19
